@@ -191,6 +191,33 @@ def check_obstacle(r, ctx):
                     raise Violation("moved-occupancy-geometry-" + ob["role"], "t=%d after translate_rotate(%r, %r): %s"
                                     % (ts, t, a, d))
         ctx.label("with-motion")
+    if ob.get("_update") and ob["role"] == "dynamic":
+        # the obstacle receives a new initial state through the public updater: from then on the occupancy at the new
+        # initial time step is the shape placed at that state, and (the prediction being invalidated) None elsewhere
+        new = ob["_update"]
+        with warnings.catch_warnings():
+            warnings.simplefilter("ignore")
+            obj.update_initial_state(gg.build_state(new))
+            t_new = new["t"]
+            exp = gg.place(ob["shape"], new["a"]["position"], new["a"]["orientation"])
+            if ob.get("_motion"):
+                pass   # the new state is given in world coordinates, independent of the earlier motion
+            for ts in range(max(0, t_new - 2), t_new + 3):
+                occ = obj.occupancy_at_time(ts)
+                if ts != t_new:
+                    if occ is not None:
+                        raise Violation("updated-occupancy-outside-horizon", "t=%d after update_initial_state(t=%d)" % (
+                            ts, t_new))
+                    continue
+                if occ is None:
+                    raise Violation("updated-occupancy-missing", "no occupancy at the new initial time step %d" % t_new)
+                d = gg.same_geo(gg.lib_shape_geo(occ.shape), exp, 1e-9 * (1 + gg.geo_scale_of(exp)))
+                if d:
+                    raise Violation("updated-occupancy-geometry", "after update_initial_state: %s" % d)
+                st_ = obj.state_at_time(ts)
+                if st_ is None or st_.time_step != t_new:
+                    raise Violation("updated-state", "state at the new initial time step: %r" % st_)
+        ctx.label("with-update-initial-state")
     ctx.label("role-" + ob["role"])
     p = ob.get("pred")
     if p:
@@ -221,8 +248,9 @@ def s_obstacle(tier):
     custom_ob = st.tuples(custom_traj, gg.any_shape(centered=True), gg.exact_state("InitialState", 0)).map(custom)
     from crverif.gen.values import translation
     motion = st.one_of(st.none(), st.none(), st.tuples(translation(100), angle()).map(list))
-    return st.tuples(st.one_of(gs.obstacle_recipe(7), gs.obstacle_recipe(7, role="dynamic"), custom_ob), motion).map(
-        lambda t: dict(t[0], _motion=t[1]))
+    update = st.one_of(st.none(), st.integers(0, 12).flatmap(lambda t: gg.exact_state("InitialState", t)))
+    return st.tuples(st.one_of(gs.obstacle_recipe(7), gs.obstacle_recipe(7, role="dynamic"), custom_ob), motion,
+                     update).map(lambda t: dict(t[0], _motion=t[1], _update=t[2]))
 
 
 # ------------------------------------------------------------------------------------------- uncertain enclosure
